@@ -66,6 +66,8 @@ def _subs(tier, prop):
         S.append(mk_sub('F5-two-procs-one-pool', resources2(2), mons, zero=['cs', 'c0']))
         S.append(mk_sub('F5-pool-raised-later', with_ops(resources2(2, cap=0), [
             {'k': 'addres', 'res': 'r', 'amount': 1, 't': 't0'}]), mons, zero=['cs', 'c0']))
+        S.append(mk_sub('F5-external-holder-releases', with_ops(serial('P', 2, res={'r': 1}) | {'pools': {'r': 1}}, [
+            {'k': 'hold', 'res': 'r', 'amount': 1, 't': 0, 'prio': 'high'}, {'k': 'unhold', 'res': 'r', 't': 't0'}]), mons, zero=['cs']))
         S.append(mk_sub('F8-budget-raise', with_ops(serial('H', 1), [
             {'k': 'budget', 'dev': 'src', 't': 't0', 'n': 1}]), mons, zero=['cs']))
     elif prop == 'C05':
@@ -115,6 +117,72 @@ def _subs(tier, prop):
         S.append(mk_sub('F6-fail-with-finished-part-blocked', with_ops(serial('PH', 2), [
             {'k': 'fail', 'dev': 'p1', 't': 't0'}, {'k': 'restore', 'dev': 'p1', 't': 't1'}]), mons, zero=['cs', 'c0'],
             pre=['t0 <= t1']))
+    elif prop == 'C04':
+        mons = ['recurrence']
+        # station kinds x zero pattern; capacities concrete per analysis
+        import itertools
+        if q:
+            shapes = [('H', 3, {}), ('P', 3, {}), ('B', 3, {1: 1}), ('B', 3, {1: 2}), ('HP', 2, {}), ('BP', 2, {1: 2}), ('PB', 2, {2: 1})]
+        else:
+            shapes = [(k, 4, {1: cap}) for k in 'HPB' for cap in ([1, 2, None] if k == 'B' else [1])]
+            shapes += [(''.join(ks), 3, {i + 1: cap for i, kk in enumerate(ks) if kk == 'B'})
+                       for ks in itertools.product('HPB', repeat=2) for cap in ([1, 2] if 'B' in ks else [1])]
+            shapes += [('HPB', 2, {3: 1}), ('BPH', 2, {1: 2}), ('PBP', 2, {2: 1}), ('PPP', 2, {})]
+        for kinds, n, caps in shapes:
+            spec = serial(kinds, n, caps=caps)
+            names = L.params_of(spec)
+            zps = [()] + [(x,) for x in names] if q else list(L.zero_patterns(names, max_zero=2))
+            if q and len(kinds) == 2:
+                zps = [(), ('cs',), ('c0',)]
+            for zp in zps:
+                capname = ''.join(str(caps.get(i + 1) or 'inf') for i, kk in enumerate(kinds) if kk == 'B')
+                S.append(mk_sub(f'F1-{kinds}{capname}-n{n}-zero[{",".join(zp)}]', spec, mons, zero=list(zp)))
+    elif prop == 'C11':
+        mons = ['resource']
+        S.append(mk_sub('F5-two-procs-one-pool', resources2(2), mons, zero=['cs', 'c0']))
+        S.append(mk_sub('F5-two-procs-one-pool-n3', resources2(3), mons, zero=['cs', 'c0']))
+        S.append(mk_sub('F5-pool-lowered-and-raised', with_ops(resources2(2), [
+            {'k': 'addres', 'res': 'r', 'amount': -1, 't': 't0'}, {'k': 'addres', 'res': 'r', 'amount': 1, 't': 't1'}]), mons,
+            zero=['cs', 'c0'], pre=['t0 <= t1']))
+        S.append(mk_sub('F5-fail-while-holding', with_ops(serial('P', 2, res={'r': 1}) | {'pools': {'r': 1}}, [
+            {'k': 'fail', 'dev': 'p1', 't': 't0'}, {'k': 'restore', 'dev': 'p1', 't': 't1'}]), mons, zero=['cs'], pre=['t0 <= t1']))
+        S.append(mk_sub('F5-maintenance-while-holding', with_ops(serial('P', 2, res={'r': 1}) | {'pools': {'r': 1}}, [
+            {'k': 'shutdown', 'dev': 'p1', 't': 't0'}, {'k': 'restore', 'dev': 'p1', 't': 't1'}]), mons, zero=['cs'], pre=['t0 <= t1']))
+        S.append(mk_sub('F5-external-holder', with_ops(serial('P', 2, res={'r': 1}) | {'pools': {'r': 1}}, [
+            {'k': 'hold', 'res': 'r', 'amount': 1, 't': 0, 'prio': 'high'}, {'k': 'unhold', 'res': 'r', 't': 't0'}]), mons, zero=['cs']))
+        S.append(mk_sub('F5-two-resources', serial('P', 2, res={'r': 1, 's': 'a1'}) | {'pools': {'r': 1, 's': 'k1'}}, mons, zero=['cs'],
+                        ranges={'a1': (0, L.T), 'k1': (0, L.T)}))
+    elif prop == 'C15':
+        mons = ['data']
+        S.append(mk_sub('F1-PB-n2-trace', dict(serial('PB', 2, caps={2: 2}), trace=True), mons, zero=['cs']))
+        S.append(mk_sub('F1-B-n3', serial('B', 3, caps={1: 2}), mons, zero=['c0']))
+        S.append(mk_sub('F5-resources', resources2(2), mons, zero=['cs', 'c0']))
+        S.append(mk_sub('F6-fail-restore-trace', dict(_faults_basic(2, [
+            {'k': 'fail', 'dev': 'p1', 't': 't0'}, {'k': 'restore', 'dev': 'p1', 't': 't1'}]), trace=True), mons, zero=['cs'], pre=['t0 <= t1']))
+        S.append(mk_sub('F6-workorder', with_ops(serial('P', 1), [
+            {'k': 'workorder', 'dev': 'p1', 't': 't0', 'tag': 'm'}, {'k': 'workorder', 'dev': 'p1', 't': 't0', 'tag': 'm'}],
+            maint=True, durs={'m': 'w0'}), mons, zero=['cs']))
+        S.append(mk_sub('F5-capacity-change', with_ops(resources2(1), [
+            {'k': 'addres', 'res': 'r', 'amount': 'a0', 't': 't0'}]), mons, zero=['cs', 'c0'], ranges={'a0': (-1, L.T)}))
+    elif prop == 'C16':
+        mons = ['value']
+        sp = serial('P', 2)
+        sp['devices'][0]['value'] = 'v0'
+        sp['devices'][1]['addvalue'] = 'a1'
+        S.append(mk_sub('F1-P-n2-values', sp, mons, zero=['cs'], ranges={'v0': (-L.T, L.T), 'a1': (-L.T, L.T)}))
+        sp2 = serial('PP', 2)
+        sp2['devices'][0]['value'] = 'v0'
+        sp2['devices'][1]['addvalue'] = 'a1'
+        sp2['devices'][2]['addvalue'] = 'a2'
+        S.append(mk_sub('F1-PP-n2-values', sp2, mons, zero=['cs', 'c0'], ranges={'v0': (0, L.T), 'a1': (-L.T, L.T), 'a2': (-L.T, L.T)}))
+        sp3 = with_ops(serial('P', 2), [{'k': 'fail', 'dev': 'p1', 't': 't0'}, {'k': 'restore', 'dev': 'p1', 't': 't1'}])
+        sp3['devices'][0]['value'] = 'v0'
+        sp3['devices'][1]['addvalue'] = 'a1'
+        S.append(mk_sub('F6-fail-values', sp3, mons, zero=['cs'], pre=['t0 <= t1'], ranges={'v0': (1, L.T), 'a1': (1, L.T)}))
+        sp4 = with_ops(serial('P', 1), [{'k': 'workorder', 'dev': 'p1', 't': 't0', 'tag': 'm'}], maint=True, durs={'m': 'w0'})
+        sp4['devices'][1]['costs'] = {'m': 'k0'}
+        sp4['devices'][0]['value'] = 'v0'
+        S.append(mk_sub('F6-workorder-cost', sp4, mons, zero=['cs'], ranges={'k0': (0, L.T), 'v0': (0, L.T)}))
     return S
 
 
@@ -125,6 +193,12 @@ SPLITS = {   # heavy analyses are case-split by the order pattern of these expre
     'F6-double-shutdown-double-restore': [('t0', 'c0'), ('t2', 'c0 + c1'), ('t3', 'c0 + c1')],
     'F6-workorder': [('t0', 'c0'), ('t0', 'c0 + c1'), ('t0 + w0', 'c0 + c1')],
     'F6-fail-restore-n2': [('t0', 'c0'), ('t0', 'c0 + c1')],
+    'F5-fail-while-holding': [('t0', 'c0'), ('t0', 'c0 + c1')],
+    'F5-maintenance-while-holding': [('t0', 'c0'), ('t0', 'c0 + c1'), ('t1', 'c0 + c1')],
+    'F6-fail-restore-trace': [('t0', 'c0'), ('t0', 'c0 + c1')],
+    'F6-fail-values': [('t0', 'c0'), ('t0', 'c0 + c1')],
+    'F1-P-n2-values': [('a1', '0'), ('v0', '0')],
+    'F1-PP-n2-values': [('a1', '0'), ('a2', '0')],
     'F6-shutdown-fail-restore': [('t0', 'c0'), ('t0 + d1', 'c0 + c1')],
     'F6-shutdown-armfail-restore': [('t0', 'c0'), ('t0 + d1', 'c0 + c1')],
 }
@@ -133,7 +207,14 @@ SPLITS = {   # heavy analyses are case-split by the order pattern of these expre
 def jobs(tier, prop):
     subs = []
     for s in _subs(tier, prop):
-        subs += split_by_order(s, SPLITS[s['name']]) if s['name'] in SPLITS else [s]
+        if s['name'] in SPLITS:
+            subs += split_by_order(s, SPLITS[s['name']])
+        elif prop == 'C04' and s['name'].endswith('zero[]'):
+            # all times non-zero: split by the order pattern of neighbouring station times
+            names = [p[0] for p in s['params']]
+            subs += split_by_order(s, list(zip(names, names[1:]))[:3])
+        else:
+            subs.append(s)
     return pack(subs, 32 if tier == 'quick' else 128, lambda s: 1.0, f'{prop.lower()}-l', weights='distinct',
                 timeout=170 if tier == 'quick' else 1500)
 
@@ -151,6 +232,11 @@ REQUIRED = {
     'C05': ['buffer_released_part', 'buffer_full', 'buffer_two_waiting', 'buffer_released_exactly_at_delay'],
     'C06': ['part_finished_on_time', 'processing_interrupted_by_maintenance', 'processing_resumed', 'failure_ended_processing',
             'offset_floored_at_zero'],
+    'C04': ['recurrence_matched', 'blocked_by_downstream'],
+    'C11': ['processing_with_resources', 'resources_kept_through_maintenance', 'released_on_failure', 'idle_processor_released'],
+    'C15': ['level_recorded', 'failure_recorded', 'produced_recorded', 'supplied_recorded', 'resource_recorded', 'work_order_recorded',
+            'trace_checked'],
+    'C16': ['value_added_by_processing', 'valuable_part_received', 'work_order_cost_charged'],
     'C13': ['failure_occurred', 'failure_lost_a_part', 'failure_while_down_with_part', 'repeated_shutdown', 'repeated_restore',
             'restored', 'utilization_accumulated', 'work_order_finished', 'work_order_in_progress'],
 }
